@@ -263,3 +263,29 @@ package sync
 //@   ensures[never-behind] result >= latestSyncedBlock
 //@   ensures[no-progress-only-when-the-context-ended] result == latestSyncedBlock ==> ctxEnded
 //@   loop 0 invariant d != nil && d.ethClient != nil && d.log != nil && d.rh != nil && ticker != nil
+
+// ---- how a downloader is put together (C05, C06): the two finality settings are both *big.Int tags further down, so a
+// mix-up type-checks. The implementation samples the head with the sync finality and classifies blocks as finalized with
+// the finalized-block tag, lowered to the sync finality when it is configured above it (a block cannot be finalized
+// before it is synced). finalityTag: the RPC tag number of a finality keyword (rigid; the keyword parsing itself -
+// strings.ToUpper - is outside the subset and assumed at this call site, A4)
+//@ spec fn finalityTag(s string) int
+//@ extern (*github.com/agglayer/aggkit/types.BlockNumberFinality).ToBlockNum@sync.NewEVMDownloader (b)
+//@   requires b != nil
+//@   modifies nothing
+//@   ensures result1 != nil ==> result0 == nil
+//@   ensures result1 == nil ==> result0 != nil && fresh(result0) && bigval(result0) == finalityTag(b.string)
+//@ func (m LogAppenderMap) GetTopics
+//@   trusted
+//@   modifies nothing
+//@ func NewEVMDownloaderImplementation
+//@   props C05 C06
+//@   modifies nothing
+//@   ensures[fields-are-the-arguments] result != nil && fresh(result) && result.ethClient == ethClient && result.blockFinality == blockFinality && result.finalizedBlockType == finalizedBlockType && result.waitForNewBlocksPeriod == waitForNewBlocksPeriod && result.appender == appender && result.addressesToQuery == addressesToQuery && result.rh == rh
+//@ func NewEVMDownloader
+//@   props C05 C06
+//@   modifies nothing
+//@   ensures[error-means-nothing] result1 != nil ==> result0 == nil
+//@   ensures[configured-as-asked] result1 == nil ==> result0 != nil && result0.syncBlockChunkSize == syncBlockChunkSize && result0.addressesToQuery == addressesToQuery && result0.EVMDownloaderInterface != nil && typeIs(result0.EVMDownloaderInterface, *EVMDownloaderImplementation) && cast(result0.EVMDownloaderInterface, *EVMDownloaderImplementation).ethClient == ethClient && cast(result0.EVMDownloaderInterface, *EVMDownloaderImplementation).rh == rh && cast(result0.EVMDownloaderInterface, *EVMDownloaderImplementation).appender == appender && cast(result0.EVMDownloaderInterface, *EVMDownloaderImplementation).waitForNewBlocksPeriod == waitForNewBlocksPeriod
+//@   ensures[head-sampled-with-the-sync-finality] result1 == nil ==> bigval(cast(result0.EVMDownloaderInterface, *EVMDownloaderImplementation).blockFinality) == finalityTag(blockFinalityType.string)
+//@   ensures[finalized-tag-never-above-the-sync-finality] result1 == nil ==> bigval(cast(result0.EVMDownloaderInterface, *EVMDownloaderImplementation).finalizedBlockType) == ite(finalityTag(finalizedBlockType.string) > finalityTag(blockFinalityType.string), finalityTag(blockFinalityType.string), finalityTag(finalizedBlockType.string)) && result0.finalizedBlockType == ite(finalityTag(finalizedBlockType.string) > finalityTag(blockFinalityType.string), blockFinalityType, finalizedBlockType)
